@@ -156,6 +156,7 @@ static void child_run(void *ud) {
   ctx_t c;
   ctx_init(&c, m4sim_libs[0]);
   heap_set_limit((size_t)64 << 20);
+  heap_config(fnv1a(a->text, strlen(a->text), FNV0), FILL_A5, RECYCLE_OFF, 0); /* fixed non-zero content of fresh heap memory: reproducible whatever reads it */
   simfs_reset(1);
   sim_shared->aux[5] = -1;
   size_t fini_lv[16]; /* ledger level with variant i finalised (the others initialised), on the pristine library */
